@@ -614,7 +614,28 @@ def ex_multitier_safe(case):
 ST_OPS = ["get", "get", "get", "get", "put", "put", "inv", "invall", "bput", "bdel", "bdel"]
 
 
+def short_softttl_strategy(tier):
+    """hard TTL at or below the backing read latency, one or two hot keys read densely by 3-4 workers, with puts and direct
+    backing-store writes in between: stale hits start refreshes, later readers join them after the entry expired, and the
+    refreshed entry can itself be over-age when they wake up"""
+    op = st.tuples(st.sampled_from(["get", "get", "get", "get", "get", "put", "bput", "bput", "bdel", "inv"]),
+                   st.sampled_from([0, 0, 0, 1]), st.sampled_from([0, 0, 1, 1, 2, 3, 4, 6]), st.just(0)).map(list)
+    worker = st.fixed_dictionaries({"start": st.integers(0, 8), "ops": st.lists(op, min_size=2, max_size=10)})
+    return st.fixed_dictionaries({
+        "soft": st.integers(0, 3), "extra": st.sampled_from([0, 1, 1, 2, 3]),
+        "cap": st.none(),
+        "nkeys": st.sampled_from([1, 1, 2]),
+        "rl": st.integers(3, 8), "wl": st.integers(1, 4), "cl": st.integers(0, 1),
+        "pre": st.lists(st.integers(0, 1), max_size=2),
+        "workers": st.lists(worker, min_size=2, max_size=4),
+    })
+
+
 def softttl_strategy(tier):
+    return st.one_of(general_softttl_strategy(tier), short_softttl_strategy(tier))
+
+
+def general_softttl_strategy(tier):
     return st.fixed_dictionaries({
         "soft": st.integers(0, 10), "extra": st.sampled_from([0, 1, 1, 2, 2, 3, 4, 6, 12]),
         "cap": st.one_of(st.none(), st.none(), st.integers(1, 3)),
@@ -633,13 +654,13 @@ def ex_softttl(case, obl="softttl"):
 
     r = Result()
     nkeys = _clamp(case.get("nkeys", 1), 1, 4)
-    rl, wl, cl = _clamp(case.get("rl", 2), 2, 6), _clamp(case.get("wl", 2), 1, 6), _clamp(case.get("cl", 0), 0, 1)
+    rl, wl, cl = _clamp(case.get("rl", 2), 2, 8), _clamp(case.get("wl", 2), 1, 6), _clamp(case.get("cl", 0), 0, 1)
     soft = _clamp(case.get("soft", 0), 0, 40)
     hard = soft + _clamp(case.get("extra", 0), 0, 40)
     cap = case.get("cap")
     cap = None if cap is None else _clamp(cap, 1, 3)
     keys = [f"k{i}" for i in range(nkeys)]
-    workers = norm_workers(case, nkeys, allowed=set(ST_OPS))
+    workers = norm_workers(case, nkeys, allowed=set(ST_OPS), max_workers=4)
     kv = KVStore("kv", read_latency=rl / 512, write_latency=wl / 512)
     sc = SoftTTLCache("sc", kv, soft_ttl=Duration(soft * TICK), hard_ttl=Duration(hard * TICK), cache_capacity=cap,
                       cache_read_latency=cl / 512)
@@ -687,6 +708,15 @@ def ex_softttl(case, obl="softttl"):
             if (value is not None and cached_at is not None and at2 == cached_at and e2.value == value
                     and rec.val >= hard * TICK):
                 rec.exc = "expired-entry"
+            # whichever entry is held now: if it carries the returned value, was not stored at this very instant (a fetch stores
+            # a fresh entry when it returns) and was already hard_ttl old one cache-read latency ago - the latest moment at which
+            # any path decides to serve from the cache - then the reply came from an expired entry (e.g. one refreshed while
+            # the reader waited for an in-flight refresh)
+            now_ns = sc.now.nanoseconds
+            if (value is not None and at2 is not None and e2.value == value and at2 < now_ns
+                    and now_ns - cl * TICK - at2 >= hard * TICK):
+                rec.exc = "expired-entry"
+                rec.val = now_ns - at2
             return value
         try:
             y = next(gen)
@@ -757,7 +787,7 @@ def ex_softttl(case, obl="softttl"):
             continue
         if g.exc == "expired-entry":
             add(f"{P}/{obl}/{'coalesced-read/' if g.extra == 'coalesced' else ''}expired-entry-served",
-                f"{g!r}: the held entry was {g.val / TICK:g} ticks old when the read began (hard_ttl {hard}) and is what the read returned")
+                f"{g!r}: the entry that was served was {g.val / TICK:g} ticks old (hard_ttl {hard})")
         elif g.val is not None and g.val >= hard * TICK and g.end - g.start < rl * TICK and g.res is not None:
             # module table: "Expired: age >= hard_ttl -> block until fresh data fetched"; a reply faster than a backing
             # read can only have come from the expired entry
@@ -765,7 +795,9 @@ def ex_softttl(case, obl="softttl"):
                 f"{g!r}: held entry was {g.val / TICK:g} ticks old (hard_ttl {hard}) yet the read returned after "
                 f"{(g.end - g.start) / TICK:g} ticks (< read latency {rl})")
         own = max((o.end for o in log if o.op == "put" and o.key == g.key and o.done() and o.end < g.start), default=NEG_INF)
-        lo_ttl = g.start - hard * TICK
+        # every path decides what to serve no later than one cache-read latency before it returns (hits at the start,
+        # coalesced readers on wake-up, fetches read the store when they return)
+        lo_ttl = g.end - cl * TICK - hard * TICK
         ok = values_in(g.key, max(lo_ttl, own), g.end)
         if g.res in ok:
             dur = g.end - g.start
